@@ -44,7 +44,12 @@
                                    ~Version, and writes curves/data/engine -- nothing else;
      C19_data_frame                whole read, on block lists (C05): junk lines, any number,
                                    inserted in the bodies of header sections other than the
-                                   one declaring the curves (the statement excludes ~C): both
+                                   one declaring the curves (the statement excludes ~C: every
+                                   section whose title may be filed as ~Curves under SOME provisional
+                                   version -- second letter C / c or "~Log_Definition" in the title --
+                                   is excluded, Proofs/JunkRead.routes_curves; since lasio's fix f4c32c8
+                                   a ~C title with an underscore is the curve section of a 1.2 / 2.0
+                                   file and a section of its own only in a 3.0 file): both
                                    reads succeed or fail alike (same error), and the curves,
                                    the curve data, the engine, the ~Other text are EQUAL and
                                    the ~Version/~Well/~Parameter/custom sections keep their
